@@ -199,10 +199,11 @@ characters of `safe` (`safe.encode("ascii", "ignore")`) -/
 def quoteSafeIn (safe : Str) (c : Char) : Bool :=
   quoteAlwaysSafe c || (decide (c.toNat < 0x80) && safe.contains c)
 
+/-- (a stray `%` is a character like any other for `quote`: it stays when `safe` holds `%`) -/
 def quoteTokBy (f : Char → Bool) : Tok → List Tok
   | .raw c => if f c then [.raw c] else (utf8 c).map escOfByte
   | .esc h1 h2 => [.esc h1 h2]
-  | .stray => [.esc '2' '5']
+  | .stray => if f '%' then [.stray] else [.esc '2' '5']
 
 def quoteToksBy (f : Char → Bool) (ts : List Tok) : List Tok := ts.flatMap (quoteTokBy f)
 
